@@ -46,18 +46,20 @@ def write (cx : Ctx) (m : Mpls) (region : Bytes) : Out Bytes :=
 /-- `MPLS::MPLS()` -/
 def create : Mpls := ⟨0, 0, 0⟩
 
+/-- `MPLS::label(small_uint<20>)` -/
+def setLabel (m : Mpls) (n : Nat) : Mpls := { m with labelHigh := n % 1048576 / 16, b2 := m.b2 % 16 + n % 1048576 % 16 * 16 }
+/-- `MPLS::experimental(small_uint<3>)`: `(b2 & 0xf1) | (value << 1)` -/
+def setExperimental (m : Mpls) (n : Nat) : Mpls := { m with b2 := m.b2 / 16 * 16 + n % 8 * 2 + m.b2 % 2 }
+/-- `MPLS::bottom_of_stack(small_uint<1>)`: `(b2 & 0xfe) | value` -/
+def setBottom (m : Mpls) (n : Nat) : Mpls := { m with b2 := m.b2 / 2 * 2 + n % 2 }
+/-- `MPLS::ttl(uint8_t)` -/
+def setTtl (m : Mpls) (n : Nat) : Mpls := { m with ttl := n % 256 }
+
 def apply (m : Mpls) : List String → Out Mpls
-  | ["label", v] => match natArg v with
-    | some n => let n := n % 1048576
-      .ok { m with labelHigh := n / 16, b2 := m.b2 % 16 + n % 16 * 16 }
-    | none => .throw .stdOther
-  | ["experimental", v] => match natArg v with
-    | some n => .ok { m with b2 := m.b2 / 16 * 16 + n % 8 * 2 + m.b2 % 2 }
-    | none => .throw .stdOther
-  | ["bottom_of_stack", v] => match natArg v with
-    | some n => .ok { m with b2 := m.b2 / 2 * 2 + n % 2 }
-    | none => .throw .stdOther
-  | ["ttl", v] => match natArg v with | some n => .ok { m with ttl := n % 256 } | none => .throw .stdOther
+  | ["label", v] => match natArg v with | some n => .ok (m.setLabel n) | none => .throw .stdOther
+  | ["experimental", v] => match natArg v with | some n => .ok (m.setExperimental n) | none => .throw .stdOther
+  | ["bottom_of_stack", v] => match natArg v with | some n => .ok (m.setBottom n) | none => .throw .stdOther
+  | ["ttl", v] => match natArg v with | some n => .ok (m.setTtl n) | none => .throw .stdOther
   | _ => .throw .stdOther
 
 end Mpls
